@@ -6,7 +6,7 @@ Import ListNotations.
 Open Scope N_scope.
 
 (* V is closed under every transition, and contains the initial state: by computation *)
-Definition closed_ok : bool := forallb (fun s => forallb (fun x => memb x V) (succs s)) V_elems.
+Definition closed_ok : bool := forallb (fun s => forallb (fun x => state_eqb x s || memb x V) (succs s)) V_elems.
 Lemma closed_ok_true : closed_ok = true.
 Proof. vm_compute. reflexivity. Qed.
 Lemma init_in_V : memb init V = true.
